@@ -700,6 +700,11 @@ def extra_cases():
     c.append((FB.replace('discard', 'redirect "[2001:db8::1]:65535"') % 'destination 2001:db8::/32;', True, _attr_on_wire(25, RT6 + _be(65535, 2))))
     c.append((FB.replace('discard', 'redirect "[2001:db8::1]:65536"') % 'destination 2001:db8::/32;', False, None))
     c.append((FB.replace('discard', 'redirect "[2001:db8::g]:1"') % 'destination 2001:db8::/32;', False, None))
+    # the block form parses its prefix outside the try of Section.parse; a prefix length which is not a number; a split
+    # which would create millions of routes (the definition must be ANSWERED); split of nothing; mup prefixes of the other
+    # family; a flow with no component at all
+    for text, ok in (('announce route 1.2.3.256/32 { next-hop 192.0.2.1 ; }', False), ('announce route 10.0.0.1/24 { next-hop 192.0.2.1 ; }', False), ('announce route 10.0.0.0/24x next-hop 192.0.2.1', False), ('announce route 10.0.0.0/ next-hop 192.0.2.1', False), ('announce route 10.0.0.0/24/1 next-hop 192.0.2.1', False), ('announce route 0.0.0.0/0 next-hop 192.0.2.1 split /32', False), ('announce route ::/0 next-hop 2001:db8::1 split /128', False), ('announce route 10.0.0.0/8 { next-hop 192.0.2.1 ; split /30 ; }', False), ('announce route 10.0.0.0/16 next-hop 192.0.2.1 split /24', True), ('announce route 10.0.0.0/24 { next-hop 192.0.2.1 ; split /26 ; }', True), ('announce attributes med 5 split /24', None), ('announce attributes next-hop 192.0.2.1 med 5 split /25 nlri 10.0.0.0/24', None), ('announce ipv4 mup mup-isd 2001:db8::/64 rd 100:100 next-hop 2001::1', False), ('announce ipv6 mup mup-isd 10.0.1.0/24 rd 100:100 next-hop 2001::1', False), ('announce ipv4 mup mup-t1st 2001::/16 rd 100:100 teid 12345 qfi 9 endpoint 10.0.0.1 next-hop 10.0.0.2', False), ('announce ipv6 mup mup-t1st 192.168.0.2/32 rd 100:100 teid 12345 qfi 9 endpoint 2001::1 next-hop 10.0.0.2', False), ('announce flow route', False), ('announce flow route { then { discard; } }', False)):
+        c.append((text, ok, None))
     c.append(('announce ipv4 multicast 224.0.0.0/24 next-hop 192.0.2.1', True, None))
     c.append(('announce ipv6 multicast ff0e::/64 next-hop 2001:db8::1', True, None))
     c.append(('announce vpls rd 65000:1 endpoint 5 base 10702 offset 1 size 8 next-hop self', None, None))
